@@ -1,0 +1,14 @@
+//go:build verif && verifmsgid
+
+package tars
+
+import "sync/atomic"
+
+// Kept in its own file and behind its own tag: it is the only hook that names the request-id
+// counter, so a tree that restructures the counter still builds with the other hooks.
+
+// VerifSetMsgID sets the process-wide request id counter.
+func VerifSetMsgID(v int32) { atomic.StoreInt32(&msgID, v) }
+
+// VerifMsgID reads the process-wide request id counter.
+func VerifMsgID() int32 { return atomic.LoadInt32(&msgID) }
